@@ -58,12 +58,24 @@ class C03(Prop):
     lean_modules = ["EaselModel.Props.C03"]
     lean_exe = "c03_driver"
     harness = "h_msafile.c"
-    theorems = ["EaselModel.Props.C03." + t for t in ("afa_write_deterministic",)]
-    claimed = False
+    theorems = ["EaselModel.Props.C03." + t for t in ("afa_write_deterministic", "afa_roundtrip_text", "afa_roundtrip_digital", "afa_roundtrip",
+                                                      "afa_write_accepted", "afa_preserves_names_rows")] + [
+        "EaselModel.Msafile.afaRead_write", "EaselModel.Msafile.splitLines_join", "EaselModel.Msafile.afaDigitalWritable_writable"]
+    claimed = True
     technique = ("Lean 4 proof (writers as functions Msa -> Bytes composed with the C01 reader models) + exact differential correspondence of written bytes "
                  "and re-read alignments with the ASan/UBSan/LSan-built library + round-trip monitors on all ten formats")
-    level_text = ""
-    level_note = ""
+    level_text = ("PARTIAL. Theorems (alignments of any size): for aligned FASTA, read(write m) = ok(project m) with nothing left unread, in text mode and in digital "
+                  "mode with the amino/DNA/RNA alphabets (tables regenerated from the C code each run), where `Writable` is an explicit decidable-style list of what AFA "
+                  "can carry (names without blank/tab/NUL, descriptions not starting with a blank, residues graphic and not '>', >=1 sequence and column) and `project` "
+                  "keeps names, rows and descriptions exactly; the output is a function of the alignment, is accepted by the reader, the next read is EOF and the "
+                  "re-read alignment is well formed. The model (writer bytes AND re-read alignment) is tied to the working tree by an exact differential run. "
+                  "ALL ten formats x text/amino/DNA/RNA are additionally exercised on the real ASan/UBSan/LSan-built library: write -> read (declared and "
+                  "autodetected) -> field-by-field comparison under each format's documented conventions (Stockholm/Pfam: every field; PHYLIP: 10-character names; "
+                  "A2M/PSI-BLAST: case and gap conventions, pyrrolysine written as X) -> re-write and byte comparison.")
+    level_note = ("Stockholm/Pfam and the other seven formats are covered by the round-trip monitors only (support, not proof); autodetection likewise. "
+                  "printf/strtod of 2-/1-decimal weights and cut-offs is trusted. Known finding C03:stockholm:first-mention-order: the Stockholm reader numbers sequences and "
+                  "#=GR tags in order of first mention (#=GS lines included), so partial per-sequence annotation changes sequence order on re-reading; the generator keeps the "
+                  "first #=GS kind total and gives the first sequence every #=GR tag. PHYLIP autodetection of single-sequence or single-block output is documented as ambiguous.")
     diverge_is_violation = False
     quick_budget_s = 75
     thorough_budget_s = 900
@@ -99,8 +111,6 @@ class C03(Prop):
                 rows.append("".join(r))
             a.rows = rows
         if rng.random() < 0.75: G.annotate(rng, a, full=True)
-        if fmt == "psiblast":     # known finding C03:psiblast:pyrrolysine - PSI-BLAST writer emits 'O', its reader rejects it
-            a.rows = [r.replace("O", "X").replace("o", "x") for r in a.rows]
         # same finding, #=GR tags: the tag order of the re-read alignment is the order of first mention; give the first sequence every tag
         a.gr = [(t, [v[0] or "".join(rng.choice("abc.*") for _ in range(a.alen))] + v[1:]) for t, v in a.gr]
         if not a.wgt:
@@ -125,8 +135,8 @@ class C03(Prop):
                           "ops": ["rt fmt=%s abc=%s n=2 alen=3 nm=6161,62 sq=414347,412d47" % (fmt, abc)]})
         c.append({"name": "known-stockholm-partial-gs", "known_key": "C03:stockholm:first-mention-order",
                   "ops": ["rt fmt=stockholm abc=text n=2 alen=3 nm=61,62 sq=414347,412d47 sqdesc=~,666f6f"]})
-        c.append({"name": "known-psiblast-O", "known_key": "C03:psiblast:pyrrolysine",
-                  "ops": ["rt fmt=psiblast abc=amino n=2 alen=4 nm=61,62 sq=4143444f,41434445"]})
+        c.append({"name": "psiblast-O", "ops": ["rt fmt=psiblast abc=amino n=2 alen=4 nm=61,62 sq=4143444f,41434445",
+                                                  "rt fmt=psiblast abc=text n=2 alen=4 nm=61,62 sq=4143444f,41436f45"]})
         return c
 
     def cases(self, ctx):
@@ -244,6 +254,9 @@ class C03(Prop):
             if m["alen"] != m2["alen"]: return "alignment length changed %s -> %s" % (m["alen"], m2["alen"])
             if len(r) != len(r2): return "row %d length changed" % i
             for j, (c, c2) in enumerate(zip(r, r2)):
+                if fmt == "psiblast":        # documented: pyrrolysine cannot be represented, written as the unknown residue
+                    if digital and abc == "amino" and c == 24: c = 26
+                    if not digital and chr(c) in "Oo": c = ord("X")
                 if isgap(c) != isgap(c2): return "gap pattern of row %d changed at column %d" % (i, j)
                 if not isgap(c):
                     if digital:
